@@ -146,6 +146,24 @@ Simplify ==
        [Ev("simplify", x, [inplace |-> 1], << >>, 0)
           EXCEPT !.o = [pyout |-> "ok", parsable |-> IF TabParsable(g[2]) THEN 1 ELSE 0, q2 |-> << >>, rt |-> << >>]], 40)
 
+\* assign_str with a text one shorter, equal or up to two longer
+AssignStr ==
+  \E x \in Live, nt \in TextsUpTo(MaxTotalLen) :
+    LET c == ctab[x] g == CPAssign(c.t, c.f, nt) IN
+    Len(nt) >= Len(c.t) - 1 /\ Len(nt) <= Len(c.t) + 2 /\
+    Do([ctab EXCEPT ![x] = [k |-> "S", t |-> g[1], f |-> g[2]]],
+       Ev("assign_str", x, [text |-> nt, inplace |-> 1], << >>, 0), 0)
+
+\* find_settings through the transcribed index-table algorithm (C17 at the level of tables)
+FindSettings ==
+  \E x \in Live, S \in SettingLists, rev \in {0, 1} :
+    LET c == ctab[x] n == Len(c.t) IN
+    \E st \in OptBounds(n) \ {<< >>}, en \in OptBounds(n) :
+      LET g == CPFindSettings(c.t, c.f, S, st, en, rev = 1) IN
+      Do(ctab,
+         [Ev("find_settings", x, [S |-> S, start |-> st, end |-> en, reverse |-> rev, inplace |-> 0], << >>, 0)
+            EXCEPT !.o = [shape |-> 1, fs |-> g[1], fe |-> g[2]]], 0)
+
 \* to_str under the 8 flag combinations; the rendering is a stuttering step of the tables
 Render ==
   \E x \in Live, opt \in {0, 1}, rs \in {0, 1}, re \in {0, 1} :
@@ -159,7 +177,7 @@ Render ==
 Next ==
   /\ depth < MaxDepth
   /\ \/ (Free # {} /\ (New \/ Slice \/ Copy \/ Add \/ Pad \/ Replace))
-     \/ Apply \/ Remove \/ IAdd \/ Render
+     \/ Apply \/ Remove \/ IAdd \/ Render \/ FindSettings \/ AssignStr
      \/ (WithParse /\ ((Free # {} /\ (NewParsed \/ Reparse)) \/ Simplify))
 
 Spec == Init /\ [][Next]_cvars
